@@ -5,7 +5,7 @@ import json, os, shutil, subprocess, sys
 
 VERIF = os.path.dirname(os.path.dirname(os.path.abspath(__file__)))
 SRC = '/tmp/seedout'
-SOURCES = [('/tmp/seedout', ''), ('/tmp/seedout2', 'r2'), ('/tmp/seedout3', 'r3'), ('/tmp/seedout4', 'r4'), ('/tmp/seedout5', 'r5')]
+SOURCES = [('/tmp/seedout', ''), ('/tmp/seedout2', 'r2'), ('/tmp/seedout3', 'r3'), ('/tmp/seedout4', 'r4'), ('/tmp/seedout5', 'r5'), ('/tmp/seedout6', 'r6')]
 NEEDS = {
  'C01-m1': 'one-token sentence whose only/best route to a root category needs a unary rule',
  'C01-m2': 'lp rule made head-right: span with two derivations of one category and different heads (runs of punctuation)',
@@ -412,6 +412,78 @@ HISTORY.update({
  'C20-r5m2': 'missed at first: two-digit dependency variables in the injected annotations',
 })
 EXTRA.update({'C01-r5m3': ['C11'], 'C02-r5m2': ['C11'], 'C02-r5m3': ['C16'], 'C12-r5m3': ['C11'], 'C19-r5m2': ['C07']})
+NEEDS.update({
+ 'C01-r6m1': 'sentence of at least 256 tokens (span fields stored in one byte)',
+ 'C01-r6m2': 'tag whose probability equals beta x best exactly',
+ 'C01-r6m3': 'several sentences in one call whose accumulated pops exceed max_step (budget counted down in the shared config)',
+ 'C02-r6m1': 'pool path with len(doc) not divisible by processes (overlapping chunks)',
+ 'C03-r6m1': 'consumed argument is a functor whose two occurrences differ in a slash (^ ignores the slash)',
+ 'C03-r6m2': 'gfc with a right input whose inner functor is backward',
+ 'C04-r6m1': '< with a modifier-shaped left argument and a non-modifier right functor',
+ 'C04-r6m2': '>B with a non-modifier primary (builds a backslash)',
+ 'C04-r6m3': '> with a non-modifier functor (head flag left)',
+ 'C05-r6m1': 'two or more consecutive blanks next to an atom or feature',
+ 'C05-r6m2': 'atom whose empty feature is equal to but not identical with the default instance (fresh object, deep copy, pickle)',
+ 'C05-r6m3': 'a typo in a shipped seen-rules file (S[poss) accepted silently by the reader',
+ 'C06-r6m1': 'shared variable bound to functors with the same result and slash but a different argument',
+ 'C06-r6m2': 'binding read for a sub-category containing a | slash (rebuilt with a backslash)',
+ 'C07-r6m1': 'xml for any batch other than 1x1 (sentence and tree index swapped)',
+ 'C07-r6m2': 'html for a category with a three-part feature',
+ 'C07-r6m3': 'conll for a token whose lemma contains a cased letter',
+ 'C08-r6m1': 'token with a compatibility character (NFKC normalised on reading)',
+ 'C09-r6m1': 'sentence of more than 256 tokens (head index in 8 bits)',
+ 'C09-r6m2': 'pool path with a unary penalty other than 0.1 and a unary node',
+ 'C09-r6m3': 'an arc whose dependency score is strictly positive',
+ 'C10-r6m1': 'two tags of a token with bit-identical scores, the larger id needed',
+ 'C10-r6m2': 'needed unary rule above a category that is not in the tag list',
+ 'C10-r6m3': 'k >= 2 on the pool path (nbest not forwarded)',
+ 'C11-r6m1': 'second or later sentence of one call with a non-default search option (config re-initialised per sentence)',
+ 'C11-r6m2': 'category list length differing from the number of tag columns',
+ 'C11-r6m3': 'over-long sentence that is not the first of its call',
+ 'C12-r6m1': 'rule whose symbol is not ASCII (<Φ>)',
+ 'C12-r6m2': 'two binary rules with the same label but different symbols in one process',
+ 'C12-r6m3': 'Jigg XML whose rule attribute is not the grammar label',
+ 'C13-r6m1': 'category produced by clear_features compared with a string or printed (cached text)',
+ 'C13-r6m2': 'triple feature named by its own text among the erased names',
+ 'C13-r6m3': 'two triples identical except for the numbering of a variable value',
+ 'C14-r6m1': 'seen-rule set given, pair licensed and a category carrying nb or X (raw pair added to the caller\'s set)',
+ 'C14-r6m2': 'pair with two or more results compared across PYTHONHASHSEED values (results collected in a set)',
+ 'C14-r6m3': 'Japanese pairs where two different variable triples meet crosswise (recursion in the binding lookup)',
+ 'C15-r6m1': 'token attribute that is the empty string',
+ 'C15-r6m2': 'Japanese token with compatibility characters read by read_jigg_xml',
+ 'C15-r6m3': 'unary node over two or more tokens (span width)',
+ 'C16-r6m1': 'two tags of a word with bit-identical scores inside the beam',
+ 'C16-r6m2': 'the highest category id among a word\'s pruning_size best tags',
+ 'C17-r6m1': 'one sentence passed without the outer list',
+ 'C17-r6m2': 'same dictionary applied to a later batch whose matrix lands on the address of a dropped one',
+ 'C17-r6m3': 'the en_rebank configuration evaluated (typo in an inline unary rule)',
+ 'C18-r6m1': 'derivation with a tr step under a parent with a concrete feature, jigg_xml first',
+ 'C18-r6m2': 'English unary node, deriv first then a symbol-printing format',
+ 'C18-r6m3': 'n-best list of two or more trees, html before a score-printing format',
+ 'C19-r6m1': 'Japanese session with format ptb',
+ 'C19-r6m2': 'format ja with tokens lacking pos1..3 or the inflection keys',
+ 'C20-r6m1': 'node or leaf whose category string ends with )',
+ 'C20-r6m2': 'token containing / printed as PTB',
+ 'C20-r6m3': 'token that is exactly * or _',
+})
+HISTORY.update({
+ 'C01-r6m2': 'NOT caught, by design: a tag whose probability equals beta x best is not below it',
+ 'C01-r6m3': 'a history defect: caught by C11 (small step budgets in batches), not by C01 (one sentence per call)',
+ 'C02-r6m1': 'a pool-path defect: caught by C11',
+ 'C05-r6m2': 'missed at first: values rebuilt from fresh default-feature objects and deep copies are printed too',
+ 'C05-r6m3': 'missed at first: a shipped string the reference reader rejects was only counted; it is a violation now (also caught by C17)',
+ 'C07-r6m3': 'missed at first: lemmas were always lower case',
+ 'C09-r6m1': 'missed at first: a sentence of more than 256 words added to C09 and C01',
+ 'C09-r6m2': 'a pool-path defect: caught by C11',
+ 'C09-r6m3': 'missed at first: unnormalised (partly positive) scores added to C09',
+ 'C10-r6m3': 'a pool-path defect: caught by C11 once n-best batches were added to its pool cases',
+ 'C12-r6m1': 'missed at first: non-ASCII symbols in the synthetic grammars',
+ 'C13-r6m1': 'missed at first: the erasure contract now also compares the printed text and string equality of the result',
+ 'C13-r6m2': 'missed at first: three-part features named by their own text are part of the domain now',
+ 'C14-r6m3': 'missed at first: crosswise variable triples added',
+ 'C15-r6m1': 'missed at first: empty attribute values added (C15 only: blank-separated formats cannot carry them)',
+})
+EXTRA.update({'C01-r6m3': ['C11'], 'C02-r6m1': ['C11'], 'C09-r6m2': ['C11'], 'C10-r6m3': ['C11'], 'C05-r6m3': ['C17']})
 
 
 def main(only=None):
